@@ -51,3 +51,12 @@ Theorem C05_peer_address_encapsulation_lossless : forall tid ip port,
   exists v, enc_xoraddr tid ip port = AOk v /\ dec_xoraddr tid v = AOk (canon_ip ip, port).
 Proof. exact xoraddr_roundtrip. Qed.
 Print Assumptions C05_peer_address_encapsulation_lossless.
+
+(* ---------- history level ---------- *)
+From Turn Require Import Common RelayCheck RelayProps RelayTrace RelayTime RelayTime7 RelayTrace2.
+(* the predicate evaluated on the implementation's observed traces (chk_C05: the two gates, oversize peer datagrams
+   dropped, ChannelData numbers in range, AND "relaying authorised by what exists before the event => the datagram is
+   forwarded, exactly once") holds on every trace of the model *)
+Theorem C05_predicate_holds_on_every_model_trace : forall cfg ep h, cfg_relay_wf cfg -> chk_C05 (model_case cfg ep h) = true.
+Proof. exact chk_C05_model. Qed.
+Print Assumptions C05_predicate_holds_on_every_model_trace.
